@@ -256,6 +256,10 @@ pub fn generate(seed: u64, tier: &str, property: &str) -> RegScenario {
         // names become file paths below tpl/: keep them plain
         cfg.prefixes.clear();
     }
+    // the templates use the simulator's callbacks but the instance gets them only later: what was
+    // refused for an unknown filter / function / test must be accepted afterwards, exactly as on a
+    // fresh instance that had them from the start
+    let late_custom = cfg.custom && rng.chance(1, 5);
     let config = Config {
         autoescape: match rng.below(6) {
             0 => Some(vec![]),
@@ -265,7 +269,7 @@ pub fn generate(seed: u64, tier: &str, property: &str) -> RegScenario {
         prefixes: cfg.prefixes.clone(),
         delims: cfg.delims.clone(),
         global: gen_global_context(&rng),
-        custom: cfg.custom,
+        custom: cfg.custom && !late_custom,
     };
     let grng = rng.fork(7);
     let mut g = Gen::new(&grng, cfg);
@@ -350,6 +354,15 @@ pub fn generate(seed: u64, tier: &str, property: &str) -> RegScenario {
                     i += k;
                 }
             }
+        }
+    }
+
+    if late_custom {
+        // registration again, now with the callbacks (files are on disk already)
+        let again: Vec<Op> = h.ops.iter().filter(|o| !matches!(o, Op::DiskWrite { .. })).cloned().collect();
+        h.push(Op::RegisterCustom { via_from: rng.chance(1, 2) }, None, false);
+        for o in again {
+            h.push(o, None, true);
         }
     }
 
